@@ -14,6 +14,21 @@ HEADER = ("From ZV Require Import Common.Exec Framing.ReadConn Framing.ReadConnE
 KIND = {"okc": 0, "ok": 1, "merr": 2, "vs": 2}
 
 
+# members a success reply's parameters may carry besides `id` (the reply type ignores what it does not
+# know): names and values that spell the envelope's own member names
+NOISE = [("level", "error"), ("error", "none"), ("error", None), ("note", "\"error\":"), ("continues", True),
+         ("parameters", {"error": "x"}), ("x", ["error", "continues"]), ("e", "org.varlink.service.MethodNotFound")]
+
+
+def okp(rng):
+    """Parameters of a success reply: {"id": n}, now and then with noise members around it."""
+    d = {"id": rng.randrange(0, 999)}
+    if rng.random() < 0.3:
+        k, v = rng.choice(NOISE)
+        d = dict([(k, v), ("id", d["id"])]) if rng.random() < 0.5 else dict([("id", d["id"]), (k, v)])
+    return d
+
+
 def reply_frames(rng, flags, target, conts=None):
     """A conforming server's replies for the chain, as frames with labels."""
     out = []
@@ -22,13 +37,13 @@ def reply_frames(rng, flags, target, conts=None):
             continue
         if f == "more":
             for _ in range(rng.choice([0, 0, 1, 2, 3]) if conts is None else conts):
-                out.append(fg.jb({"parameters": {"id": rng.randrange(0, 999)}, "continues": True}))
+                out.append(fg.jb({"parameters": okp(rng), "continues": True}))
         end = rng.choice(["ok", "ok", "okf", "err", "errp", "svc", "noparams"] if target == "value" else
                          ["ok", "ok", "okf", "err", "errp", "svc"])
         if end == "ok":
-            out.append(fg.jb({"parameters": {"id": rng.randrange(0, 999)}}))
+            out.append(fg.jb({"parameters": okp(rng)}))
         elif end == "okf":
-            out.append(fg.jb({"parameters": {"id": rng.randrange(0, 999)}, "continues": False}))
+            out.append(fg.jb({"parameters": okp(rng), "continues": False}))
         elif end == "err":
             out.append(fg.jb({"error": "org.example.Busy"}))
         elif end == "errp":
